@@ -230,9 +230,11 @@ func (cr *checkRun) generate(config string, tags string) {
 			sort.Strings(fr.Abstracted)
 			for c := range ex.usedContracts {
 				cr.contracts[c] = true
-				if cc := db.funcs[c]; cc != nil && cc.Opts["trust_ensures"] == "true" {
+				if cc := db.funcs[c]; cc != nil {
 					for _, en := range cc.Ensures {
-						cr.abstracted["ASSUMED (not proved): ensures of "+c+": "+en.Text] = true
+						if cc.Opts["trust_ensures"] == "true" || hasProp(en.Props, "assumed") {
+							cr.abstracted["ASSUMED (not proved): ensures of "+c+": "+en.Text] = true
+						}
 					}
 				}
 			}
@@ -244,6 +246,15 @@ func (cr *checkRun) generate(config string, tags string) {
 		for _, n := range []string{"glow.UnixToTimeslot"} {
 			anyFn = ld.funcs[n]
 		}
+	}
+	for _, fc := range db.frames {
+		if !hasProp(fc.Props, cr.prop) {
+			continue
+		}
+		o := frameObligation(ld, fc)
+		o.Name = "[" + config + "] " + o.Name
+		cr.obls = append(cr.obls, o)
+		cr.funcs = append(cr.funcs, funcReport{Name: o.Func, Config: config, Obligations: 1})
 	}
 	for _, lm := range db.lemmas {
 		if !hasProp(lm.Props, cr.prop) {
@@ -584,6 +595,7 @@ func writeReplay(path, prop string, o *Obl, cr *checkRun) bool {
 		"result":        o.Result,
 		"solver":        o.Solver,
 		"solver_output": o.Model,
+		"frame_verdict": o.FrameDetail,
 		"replayed":      false,
 	}
 	replayed := false
